@@ -1044,7 +1044,7 @@ func (c *fnCtx) typeOf(e ast.Expr) string {
 				}
 				return "Z"
 			case "Z":
-				if se.Sel.Name == "Value" {
+				if se.Sel.Name == "Value" || (c.t.loc && se.Sel.Name == "Nanoseconds") {
 					return "Z"
 				}
 			}
@@ -1477,6 +1477,9 @@ func (c *fnCtx) call(x *ast.CallExpr, k func(string) string) string {
 				})
 			}
 		case "Z":
+			if c.t.loc && se.Sel.Name == "Nanoseconds" && len(x.Args) == 0 {
+				return c.expr(se.X, k) // a time.Duration counts nanoseconds
+			}
 			if se.Sel.Name == "Value" && len(x.Args) == 0 {
 				// Value() of an interface-typed node held in a field: the field is its current value
 				if root, path, ok := rootIdent(se.X); ok && len(path) > 0 {
@@ -1583,5 +1586,101 @@ func renameReserved(fd *ast.FuncDecl) {
 				n.Name += "_"
 			}
 		}
+	}
+}
+
+
+// Section "trigsrc": quartz/trigger.go's SimpleTrigger.NextFireTime and RunOnceTrigger.NextFireTime
+// (coq/sched/theories/Gen/TrigSrc.v; TrigTie.v proves them equal to the model's executable trigger instances).
+func init() { sections["trigsrc"] = genTrigSrc }
+
+func genTrigSrc(o *out) {
+	t := &csmTr{structs: map[string]*gstruct{}, funcs: map[string]*gfunc{}, consts: map[string]int64{}, loc: true}
+	f := parse("quartz/trigger.go")
+	t.consts["ErrTriggerExpired"] = 1
+	var structOrder []string
+	for _, name := range []string{"SimpleTrigger", "RunOnceTrigger"} {
+		var st *ast.StructType
+		for _, d := range f.f.Decls {
+			g, ok := d.(*ast.GenDecl)
+			if !ok || g.Tok != token.TYPE {
+				continue
+			}
+			for _, sp := range g.Specs {
+				ts := sp.(*ast.TypeSpec)
+				if ts.Name.Name == name {
+					st, _ = ts.Type.(*ast.StructType)
+				}
+			}
+		}
+		if st == nil {
+			die("quartz/trigger.go: struct %s not found", name)
+		}
+		gs := &gstruct{name: name}
+		for _, fl := range st.Fields.List {
+			for _, n := range fl.Names {
+				gs.fields = append(gs.fields, gfield{n.Name, t.gtype(f, fl.Type)})
+			}
+		}
+		t.structs[name] = gs
+		structOrder = append(structOrder, name)
+	}
+	for _, recv := range structOrder {
+		fd := f.method(recv, "NextFireTime")
+		gf := &gfunc{decl: fd, file: f, goName: recv + ".NextFireTime", coqName: "g_" + recv + "_NextFireTime",
+			recv: fd.Recv.List[0].Names[0].Name, recvType: recv}
+		for _, p := range fd.Type.Params.List {
+			for _, n := range p.Names {
+				gf.params = append(gf.params, gfield{n.Name, t.gtype(f, p.Type)})
+			}
+		}
+		for _, r := range fd.Type.Results.List {
+			gf.results = append(gf.results, t.gtype(f, r.Type))
+		}
+		t.funcs[gf.goName] = gf
+	}
+	for changed := true; changed; {
+		changed = false
+		for _, gf := range t.funcs {
+			if !gf.mutates && t.bodyMutates(gf) {
+				gf.mutates = true
+				changed = true
+			}
+		}
+	}
+	o.line("(* Source-to-Gallina translation of quartz/trigger.go's SimpleTrigger and RunOnceTrigger (see harness/cmd/genparams/csmsrc.go). *)")
+	o.line("(* int64 is rendered as unbounded Z (prev + interval does not wrap here); error: 0 = nil, 1 = ErrTriggerExpired. *)")
+	o.line("From Coq Require Import ZArith List Bool.")
+	o.line("Import ListNotations.")
+	o.line("Open Scope Z_scope.")
+	o.line("")
+	o.line("Definition c_ErrTriggerExpired : Z := 1.")
+	for _, sn := range structOrder {
+		gs := t.structs[sn]
+		var fs []string
+		for _, fl := range gs.fields {
+			fs = append(fs, fmt.Sprintf("%s_%s : %s", sn, fl.name, coqType(fl.typ)))
+		}
+		o.line("Record %s := { %s }.", sn, strings.Join(fs, "; "))
+		for _, fl := range gs.fields {
+			var as []string
+			for _, f2 := range gs.fields {
+				if f2.name == fl.name {
+					as = append(as, fmt.Sprintf("%s_%s := v__", sn, f2.name))
+				} else {
+					as = append(as, fmt.Sprintf("%s_%s := %s_%s s__", sn, f2.name, sn, f2.name))
+				}
+			}
+			o.line("Definition set_%s_%s (s__ : %s) (v__ : %s) : %s := {| %s |}.", sn, fl.name, sn, coqType(fl.typ), sn, strings.Join(as, "; "))
+		}
+	}
+	o.line("")
+	t.texts = map[string]string{}
+	t.state = map[string]int{}
+	for _, recv := range structOrder {
+		t.require(t.funcs[recv+".NextFireTime"])
+	}
+	for _, n := range t.order {
+		o.line("%s", t.texts[n])
 	}
 }
